@@ -940,6 +940,25 @@ def rule_N7(ctx, rule: str = "N7") -> None:
         else:
             ctx.proved(rule, "load_varint:raw-is-the-bytes-read", mod.loc(lv), f"{n_ret} returning paths; raw is built from the read results"
                        + (f" and `{first}`" if first else "") + " by concatenation only")
+    # (g) "a first byte was handed in" is not decided by the truth of something that can be falsy when it was: callers that
+    # pass the byte as an int (first[0]) pass 0 for the byte 0x00, a complete varint (and, as a tag, field number 0)
+    if first:
+        by_truth = any(k == N(first) for p in paths for k in p.valuation)
+        int_args = []
+        for q_, f_ in mod.functions():
+            for c_ in ast.walk(f_):
+                if isinstance(c_, ast.Call) and isinstance(c_.func, ast.Name) and c_.func.id == "load_varint":
+                    a_ = c_.args[1] if len(c_.args) > 1 else next((k_.value for k_ in c_.keywords if k_.arg == first), None)
+                    if isinstance(a_, ast.Subscript) and isinstance(a_.slice, ast.Constant) and isinstance(a_.slice.value, int):
+                        int_args.append((q_, c_, a_))
+        if by_truth and int_args:
+            q_, c_, a_ = int_args[0]
+            ctx.refuted(rule, "load_varint:supplied-byte-recognised-whatever-its-value", ast.unparse(a_), mod.loc(c_),
+                        f"{q_} hands the byte it already read to load_varint as the integer `{ast.unparse(a_)}`, and load_varint takes `{first}` for supplied only when it is truthy: the byte 0x00 "
+                        "(integer 0) counts as 'nothing supplied', is dropped from the raw bytes, and the next byte is decoded instead - a tag 0x00 (field number 0) in front of a field is skipped "
+                        "instead of rejected", "M().parse(b'\\x00\\x08\\x01')")
+        else:
+            ctx.proved(rule, "load_varint:supplied-byte-recognised-whatever-its-value", mod.loc(lv), "the byte is handed on as a non-empty bytes object (or tested against None)")
     if not n_ret:
         ctx.inconclusive(rule, "load_varint:raw-covers-value", "no path returning (value, raw)", mod.loc(lv))
     elif missing:
